@@ -875,12 +875,15 @@ pub fn replay_main(def: &PropDef, path: &str) -> i32 {
     // rdest's own thread_rng cannot be seeded: re-run a few times
     let tries = 20;
     let mut code = 0;
+    let mut known_printed: BTreeSet<String> = BTreeSet::new();
     for _ in 0..tries {
         let out = (sub.replay)(&body["case"]);
         let mut bad = false;
         for f in &out.fails {
             if known.contains(&f.signature) {
-                println!("KNOWN-FINDING: property={} [{}] {}", def.id, f.signature, truncate_str(&f.detail, 300));
+                if known_printed.insert(f.signature.clone()) {
+                    println!("KNOWN-FINDING: property={} [{}] {}", def.id, f.signature, truncate_str(&f.detail, 300));
+                }
             } else {
                 println!("detail: [{}] {}", f.signature, truncate_str(&f.detail, 1200));
                 bad = true;
